@@ -176,3 +176,48 @@ class DenseGalerkinTransfer(SpaceTransfer):
 
     def prolong(self, G):
         return self._apply(self.P, G, self.fine_prob)
+
+
+def make_dense_dae():
+    """class factory (the DAE project is imported lazily): semi-explicit linear index-1 DAE with n differential and n algebraic
+    unknowns   y' = A11 y + A12 z + g1(t),   0 = A21 y + A22 z + g2(t)   written in pySDC's fully implicit form F(u, u', t) = 0"""
+    from pySDC.projects.DAE.misc.problemDAE import ProblemDAE
+
+    class DenseLinearDAE(ProblemDAE):
+        def __init__(self, A11=None, A12=None, A21=None, A22=None, c1=None, c2=None, w=1.0, newton_tol=1e-13):
+            n = np.asarray(A11).shape[0]
+            super().__init__(nvars=n, newton_tol=newton_tol)
+            self._makeAttributeAndRegister('A11', 'A12', 'A21', 'A22', 'c1', 'c2', 'w', localVars=locals(), readOnly=True)
+
+        def g1(self, t):
+            return np.asarray(self.c1) * np.sin(self.w * t)
+
+        def g2(self, t):
+            return np.asarray(self.c2) * np.cos(self.w * t)
+
+        def dg2(self, t):
+            return -self.w * np.asarray(self.c2) * np.sin(self.w * t)
+
+        def eval_f(self, u, du, t):
+            f = self.dtype_f(self.init)
+            f.diff[:] = np.asarray(du.diff) - (self.A11 @ np.asarray(u.diff) + self.A12 @ np.asarray(u.alg) + self.g1(t))
+            f.alg[:] = self.A21 @ np.asarray(u.diff) + self.A22 @ np.asarray(u.alg) + self.g2(t)
+            self.work_counters['rhs']()
+            return f
+
+        def consistent(self, y, t):
+            """(u, du) on the constraint manifold for differential part y at time t"""
+            u, du = self.dtype_u(self.init), self.dtype_u(self.init)
+            z = -np.linalg.solve(self.A22, self.A21 @ y + self.g2(t))
+            yp = self.A11 @ y + self.A12 @ z + self.g1(t)
+            zp = -np.linalg.solve(self.A22, self.A21 @ yp + self.dg2(t))
+            u.diff[:], u.alg[:], du.diff[:], du.alg[:] = y, z, yp, zp
+            return u, du
+
+        def u_exact(self, t):
+            return self.consistent(np.ones(self.nvars), t)[0]
+
+        def du_exact(self, t):
+            return self.consistent(np.ones(self.nvars), t)[1]
+
+    return DenseLinearDAE
